@@ -594,7 +594,7 @@ func c04Order(p *Prog, r *Report) {
 			switch {
 			case genLookup != nil && strings.HasPrefix(k, sk(genLookup)):
 			case nameLk != nil && k == sk(nameLk)+"#1 == true":
-			case strings.Contains(k, "rangeindex") || strings.HasPrefix(k, "(phi:"):
+			case isLoopBoundFact(k):
 			default:
 				extra = append(extra, k)
 			}
@@ -638,12 +638,9 @@ func c04Order(p *Prog, r *Report) {
 		rmD := p.Rels(decls)
 		rs := p.RelsAt(rmD, outer[0])
 		for k := range rs {
-			if !(strings.Contains(k, "rangeindex") || strings.HasPrefix(k, "(phi:")) {
-				// conditions other than loop bounds
-				if !strings.Contains(k, "len(") {
-					okOuter = false
-					why = "the top-level visit is conditional on " + k
-				}
+			if !isLoopBoundFact(k) {
+				okOuter = false
+				why = "the top-level visit is conditional on " + k
 			}
 		}
 	}
@@ -739,4 +736,13 @@ func c04Naming(p *Prog, r *Report) {
 	}
 	r.Check("R04e", "funcDecl rejects names containing __", pos, guard,
 		"MethodName(T, m) = T__m is injective on Go identifiers only if identifiers containing \"__\" are rejected; method (T).m and function T__m both become `Definition T__m`")
+}
+
+// isLoopBoundFact: the bound test of a range-over-slice loop, "(phi:rangeindex + 1) < len(…)".
+func isLoopBoundFact(k string) bool {
+	if strings.HasPrefix(k, "(phi:rangeindex + 1) < len(") && topLevelIndex(k, " < ") == len("(phi:rangeindex + 1)") {
+		return true
+	}
+	// exit condition of an earlier range loop: "len(…) <= (phi:rangeindex + 1)"
+	return strings.HasPrefix(k, "len(") && strings.HasSuffix(k, ") <= (phi:rangeindex + 1)")
 }
